@@ -449,6 +449,18 @@ func (r *FnRun) callByContract(fr *Frame, st *State, ct *Contract, names []strin
 			}
 		}
 	}
+	if ufn := ct.Opts["deterministic"]; ufn != "" && len(res) == 1 {
+		u := r.e.cs.UFuncs[ufn]
+		if u == nil {
+			sfail("%s: deterministic names unknown ufunc %q", ct.Name, ufn)
+		}
+		r.declareFun("uf_"+u.Name, r.msl(u.Args), r.ms(u.Res))
+		var ts []Term
+		for _, a := range args {
+			ts = append(ts, termOf(a))
+		}
+		r.assume(Eq(termOf(res[0]), App("uf_"+u.Name, r.ms(u.Res), ts...)))
+	}
 	post := &specEnv{st: st, old: pre, vars: vars, pkg: ct.Pkg, what: ct.Name, oldTop: pre.top}
 	for _, cl := range ct.Ensures {
 		post.what = ct.Name + " ensures " + cl.Label
